@@ -89,6 +89,15 @@ type Store struct {
 	dbs    []*DB
 	levels CompactionLevels
 
+	// lifecycleMu serializes the requests that add, remove, start or stop a
+	// database (RegisterDB, UnregisterDB, EnableDB, DisableDB). It is held
+	// across the open/close they perform so that, for one path, a removal
+	// that is still closing its instance cannot overlap a registration that
+	// opens a second one, and an instance that has just been removed cannot
+	// be started again. It does not guard the list itself (mu does), so
+	// syncs, monitors and status queries are never blocked by it.
+	lifecycleMu sync.Mutex
+
 	wg     sync.WaitGroup
 	ctx    context.Context
 	cancel func()
@@ -292,6 +301,9 @@ func (s *Store) RegisterDB(db *DB) error {
 		return fmt.Errorf("db required")
 	}
 
+	s.lifecycleMu.Lock()
+	defer s.lifecycleMu.Unlock()
+
 	// First check: see if database already exists
 	s.mu.Lock()
 	for _, existing := range s.dbs {
@@ -348,6 +360,9 @@ func (s *Store) UnregisterDB(ctx context.Context, path string) error {
 		return fmt.Errorf("db path required")
 	}
 
+	s.lifecycleMu.Lock()
+	defer s.lifecycleMu.Unlock()
+
 	s.mu.Lock()
 
 	idx := -1
@@ -379,6 +394,9 @@ func (s *Store) UnregisterDB(ctx context.Context, path string) error {
 // The context is checked for cancellation before opening.
 // Note: db.Open() itself does not support cancellation.
 func (s *Store) EnableDB(ctx context.Context, path string) error {
+	s.lifecycleMu.Lock()
+	defer s.lifecycleMu.Unlock()
+
 	db := s.FindDB(path)
 	if db == nil {
 		return fmt.Errorf("database not found: %s", path)
@@ -402,6 +420,9 @@ func (s *Store) EnableDB(ctx context.Context, path string) error {
 
 // DisableDB stops replication for a database.
 func (s *Store) DisableDB(ctx context.Context, path string) error {
+	s.lifecycleMu.Lock()
+	defer s.lifecycleMu.Unlock()
+
 	db := s.FindDB(path)
 	if db == nil {
 		return fmt.Errorf("database not found: %s", path)
